@@ -54,6 +54,7 @@ func genCase(t *rapid.T) Case {
 	for i := 0; i < nl; i++ {
 		l := assetgen.Gen(t, assetgen.Opts{AllowText: true, AllowThumb: true, MinFrames: 10, MaxFrames: 60})
 		l.TfhdDur = rapid.Bool().Draw(t, "tfhd-defaults") // sample durations as tfhd defaults instead of trun entries
+		l.ASCodecs = rapid.IntRange(0, 2).Draw(t, "as-codecs") == 0 // @codecs on the AdaptationSet instead of the Representation
 		l.TrexStale = l.TfhdDur && l.Audio != "" && rapid.Bool().Draw(t, "trex-stale") // ... and an init segment whose trex default disagrees with them
 		if l.Form == "number" && len(l.VSegFrames) >= 2 && len(l.ASegFrames) != 1 {
 			l.ShortMPD = rapid.Bool().Draw(t, "short-mpd") // a second MPD describing the same representations with fewer segments
